@@ -17,12 +17,12 @@ EXPLANATION = (
     "nothing. The GitHub-issues special case in the source is a recorded known finding and excluded while it reproduces.")
 BOUNDS = dict(uris="<= 3 (quick: 1 and 2)", alphabet="ASCII (so that str.isalnum is the ASCII class)", strings="unbounded length",
               delimiters="default ('#', '/', '_'), ['|', '='] and ['|'] (m = 3 and the quick m = 2 jobs use the one-delimiter list)", cutoff="None, 1, 2")
-OUTSIDE = ["non-ASCII URIs", "more than 3 URIs", "multi-character delimiters", "discover_from_rdf (rdflib parsing)"]
+OUTSIDE = ["non-ASCII URIs", "more than 3 URIs", "multi-character delimiters other than '::' (m = 1)", "discover_from_rdf (rdflib parsing)"]
 ASSUMPTIONS = ["pytrie contract stub", "pydantic BaseModel stub", "URIs are ASCII strings"]
 
 ENGINE_OPTS = dict(prefer_cvc5=True)   # z3 4.x/5.x time out on "constant prefix across a concatenation" queries cvc5 answers at once
 
-DELIMS = {"default": None, "custom": ["|", "="], "one": ["|"]}
+DELIMS = {"default": None, "custom": ["|", "="], "one": ["|"], "multi": ["::"]}
 
 
 def jobs(tier):
@@ -38,6 +38,7 @@ def jobs(tier):
                         expect_outcomes={"single": ["learned", "nothing"], "multi": ["records"]}[fn]))
     J("single", 1, dict(delims="default"))
     J("single", 1, dict(delims="custom"))
+    J("single", 1, dict(delims="multi"))
     J("multi", 2, dict(delims="one", cutoff=None), shard=5)
     J("multi", 2, dict(delims="one", cutoff=2), shard=5)
     J("multi", 1, dict(delims="default", cutoff=None, converter=True))
@@ -58,7 +59,7 @@ def delim_chars(params):
 
 def lang(params):
     d = delim_chars(params)
-    dre = z3.Union(*[z3.Re(x) for x in d])
+    dre = z3.Union(*[z3.Re(x) for x in d]) if len(d) > 1 else z3.Re(d[0])
     alnum = z3.Plus(ASCII_ALNUM)
     return dre, alnum, z3.Concat(ANYSTR, dre, alnum)
 
